@@ -121,7 +121,7 @@ pub struct Writer<W: Write> {
     header: Vec<u8>,
 }
 
-fn pad(len: usize) -> Option<Vec<u8>> {
+pub(crate) fn pad(len: usize) -> Option<Vec<u8>> {
     // pad out to a multiple of 4 bytes
     let overhang = len % 4;
     if overhang != 0 {
@@ -362,6 +362,10 @@ impl<R: Read> Reader<R> {
             STRIPPED_CPIO_MAGIC_NUMBER => {
                 // char    fx[8];
                 let file_index = read_hex_u32(&mut inner)?;
+                // the header is padded to a multiple of 4 bytes, like the regular one
+                if let Some(mut padding) = pad(STRIPPED_CPIO_HEADER_LEN) {
+                    inner.read_exact(&mut padding)?;
+                }
                 RpmPayloadEntry::Stripped(file_index)
             }
             _ => {
